@@ -48,12 +48,19 @@ pub struct Session {
     pub data_dir: std::path::PathBuf,
     pub last_ids: Vec<Vec<u64>>,        // element ids of the results of the last exec / exec_mut
     pub transferred: std::collections::BTreeSet<(u64, u64)>,   // databases handed to another owner by an admin rename
+    pub converted: std::collections::BTreeSet<(u64, u64)>,     // databases whose kind was changed by a convert
 }
 
 fn unix() -> u64 { std::time::SystemTime::now().duration_since(std::time::UNIX_EPOCH).unwrap().as_secs() }
 
 fn code_of<T>(r: &Result<T, AgdbApiError>, ok: impl Fn(&T) -> u16) -> u16 {
-    match r { Ok(v) => ok(v), Err(e) => e.status }
+    match r {
+        Ok(v) => ok(v),
+        Err(e) => {
+            if e.status >= 500 && std::env::var("HX_TRACE").is_ok() { eprintln!("server error {}: {}", e.status, e.description); }
+            e.status
+        }
+    }
 }
 
 impl Session {
@@ -63,7 +70,7 @@ impl Session {
         Session {
             api: AgdbApi::new(ReqwestClient::new(), address), tokens: vec![], observer: None, users, base_unix: unix(), ttl,
             cases: vec![], impls: vec![], oracle: vec![], seq: vec![], last: Obs::default(), stats: BTreeMap::new(), fatal: None,
-            seq_failed: false, data_dir: data_dir.to_path_buf(), last_ids: vec![], transferred: Default::default(),
+            seq_failed: false, data_dir: data_dir.to_path_buf(), last_ids: vec![], transferred: Default::default(), converted: Default::default(),
         }
     }
     pub fn now(&self) -> u64 { unix().saturating_sub(self.base_unix) }
@@ -91,6 +98,7 @@ impl Session {
         self.seq.clear();
         self.seq_failed = false;
         self.transferred.clear();
+        self.converted.clear();
         self.last = Obs { users: self.users.keys().map(|u| (*u, 0)).collect(), dbs: vec![] };
         let line = format!("server reset {} 0 ({})", hx(self.ttl),
             self.users.iter().map(|(u, p)| format!("({} {})", hx(*u), hx(*p))).collect::<Vec<_>>().join(" "));
@@ -333,6 +341,7 @@ impl Session {
     /// one request of the sequence: execute, observe, print, check the direct oracles
     pub async fn step(&mut self, tok: Tok, req: Req) -> u16 {
         let now = self.now();
+        let reports_before = self.oracle.len();
         let pre = self.last.clone();
         let caller = self.caller(tok);
         let (code, body) = self.call(tok, &req).await;
@@ -369,12 +378,26 @@ impl Session {
                 Req::ADb(o, d, Op::Rename(no, nd)) => {
                     let was = self.transferred.remove(&(*o, *d));
                     if no != o || was { self.transferred.insert((*no, *nd)); }
+                    if self.converted.remove(&(*o, *d)) { self.converted.insert((*no, *nd)); }
                 }
-                Req::Db(o, d, Op::Rename(_, nd)) => if self.transferred.remove(&(*o, *d)) { self.transferred.insert((*o, *nd)); },
+                Req::Db(o, d, Op::Rename(_, nd)) => {
+                    if self.transferred.remove(&(*o, *d)) { self.transferred.insert((*o, *nd)); }
+                    if self.converted.remove(&(*o, *d)) { self.converted.insert((*o, *nd)); }
+                }
+                Req::Db(o, d, Op::Convert(k)) | Req::ADb(o, d, Op::Convert(k)) => {
+                    if pre.db(*o, *d).map(|x| x.kind != k.s()).unwrap_or(false) { self.converted.insert((*o, *d)); }
+                }
                 _ => {}
             }
         }
-        if obs.is_err() { return code; }
+        if let Err(oc) = &obs {
+            if *oc != 401 {
+                let cls = if !self.converted.is_empty() { "db_damaged_by_convert" } else { "state_not_observable" };
+                let what = format!("request `{} {}` -> {}: afterwards the admin endpoints cannot read the state (status {})", tok.s(), req.s(), code, oc);
+                self.report(cls, &what);
+            }
+            return code;
+        }
         // ---- direct oracles (the property itself, on the implementation)
         let what = format!("request `{} {}` -> {}", tok.s(), req.s(), code);
         // (1) a rejected request has no effect on anything observable
@@ -457,6 +480,17 @@ impl Session {
                         else if overwrite { "failed_batch_partly_applied_after_value_overwrite" } else { "failed_batch_partly_applied" };
                     self.report(cls, &format!("{what}: nodes before {:?} after {:?}; audit before {} after {}", b.nodes, a.nodes, b.audit.len(), a.audit.len()));
                 }
+            }
+        }
+        // (5) a request that can only succeed (authorized, every query of a kind that cannot fail) must not
+        //     be answered with a server error
+        if self.oracle.len() == reports_before {
+            let target = match &req { Req::Db(o, d, _) | Req::ADb(o, d, _) => Some((*o, *d)), _ => None };
+            let harmless = |qs: &Vec<Q>| qs.iter().all(|q| matches!(q, Q::Count | Q::Search | Q::InsNode(_)) || matches!(q, Q::Probe(p) if *p >= 6));
+            let cannot_fail = match &req { Req::Db(_, _, Op::Exec(qs) | Op::ExecMut(qs)) | Req::ADb(_, _, Op::Exec(qs) | Op::ExecMut(qs)) => harmless(qs), _ => false };
+            if code >= 500 || (code == 470 && cannot_fail) {
+                let cls = if target.map(|t| self.converted.contains(&t)).unwrap_or(false) { "db_damaged_by_convert" } else { "server_error_on_valid_request" };
+                self.report(cls, &format!("{what}: state {}", pre.s()));
             }
         }
         self.last = post;
